@@ -15,8 +15,9 @@ RULE = ("frames of 1..40 duplicate-free columns (random names incl. ' AND_REL ' 
         "caps 0..|cands|+5 plus boundary/huge/negative values, 1..3 batches on a shared counter; the real "
         "get_combinations_from_columns (list) and mixed_rank_graph rows (serial fake pool) are fed to the Coq checker "
         "C06_check; non-trivial = at least 2 columns; distinct = distinct canonical cases")
-THEOREMS = ["C06_target_only", "C06_pairwise", "C06_3mr", "C06_spec_decidable", "C06_target_only_once",
-            "C06_pairwise_multiplicity", "C06_clamp", "C06_selected", "C06_selected_min", "C06_transcription_selected",
+THEOREMS = ["C06_target_only", "C06_pairwise", "C06_3mr", "C06_spec_decidable", "C06_listed_once", "C06_target_only_once",
+            "C06_multiplicity", "C06_pairwise_multiplicity", "C06_valid_batch_no_reference", "C06_ref_filter_set",
+            "C06_ref_requested", "C06_ref_batch_spec", "C06_ref_complete", "C06_clamp", "C06_selected", "C06_selected_min", "C06_transcription_selected",
             "C06_mirrored", "C06_constant_once", "C06_closed", "C06_requested", "C06_batch_spec",
             "C06_rows_checker_exact", "C06_fast_rows_checker", "C06_fast_cands_checker", "C06_check_sound", "C06_model_ok", "C06_sorted_set_canonical"]
 HEADER = ("From Coq Require Import List ZArith NArith Bool.\n"
@@ -121,8 +122,42 @@ def extract_source_constants(path=None):
     tro = got["tro_eq"] | got["tro_ne"]
     if len(tro) != 1 or not got["tro_eq"]:
         raise Refuse("expected one constant compared with args.target_ranking_only, found %s" % sorted(tro))
-    return {"max_features": maxf, "s_3mr": got["heur_in"].pop(), "s_true": tro.pop(),
-            "s_constant": got["heur_eq"].pop(), "s_and_rel": got["col_in"].pop()}
+    out = {"max_features": maxf, "s_3mr": got["heur_in"].pop(), "s_true": tro.pop(),
+           "s_constant": got["heur_eq"].pop(), "s_and_rel": got["col_in"].pop()}
+    out.update(_extract_reference_filter(tree))
+    return out
+
+
+def _extract_reference_filter(tree):
+    """The reference-model filter: `(' AND ').join(tuple(sorted(item.split(','))))` in mixed_rank_graph and the heuristic set of
+    core_utils.is_prior_heuristic (`args.heuristic in {...} and args.reference_model_JSON`)."""
+    f = _fn(tree, "mixed_rank_graph")
+    joins, splits = set(), set()
+    for n in ast.walk(f):
+        if isinstance(n, ast.Call) and isinstance(n.func, ast.Attribute) and n.func.attr in ("join", "split"):
+            if n.func.attr == "join" and isinstance(n.func.value, ast.Constant) and isinstance(n.func.value.value, str):
+                joins.add(n.func.value.value)
+            elif n.func.attr == "split" and len(n.args) == 1 and isinstance(n.args[0], ast.Constant) and isinstance(n.args[0].value, str):
+                splits.add(n.args[0].value)
+            else:
+                raise Refuse("unrecognised join/split in mixed_rank_graph: %s" % ast.unparse(n))
+    if len(joins) != 1 or len(splits) != 1 or len(next(iter(splits))) != 1:
+        raise Refuse("expected one ' AND '.join(...) and one split(',') in mixed_rank_graph, found %s / %s" % (sorted(joins), sorted(splits)))
+    upath = os.path.join(os.path.dirname(SRC), "core_utils.py")
+    g = _fn(ast.parse(open(upath, encoding="utf8").read()), "is_prior_heuristic")
+    sets = []
+    for n in ast.walk(g):
+        if isinstance(n, ast.Compare):
+            if len(n.ops) == 1 and isinstance(n.ops[0], ast.In) and _is_args_attr(n.left, "heuristic") \
+                    and isinstance(n.comparators[0], (ast.Set, ast.List, ast.Tuple)) \
+                    and all(isinstance(e, ast.Constant) and isinstance(e.value, str) for e in n.comparators[0].elts):
+                sets.append(sorted(e.value for e in n.comparators[0].elts))
+            else:
+                raise Refuse("unrecognised comparison in is_prior_heuristic: %s" % ast.unparse(n))
+    uses_json = any(_is_args_attr(n, "reference_model_JSON") for n in ast.walk(g))
+    if len(sets) != 1 or not uses_json:
+        raise Refuse("is_prior_heuristic does not have the shape `args.heuristic in {...} and args.reference_model_JSON`")
+    return {"prior_heuristics": sets[0], "join": next(iter(joins)), "split": next(iter(splits))}
 
 
 # ---------------------------------------------------------------------------
@@ -173,12 +208,10 @@ def approx_ncands(cols, label, heuristic, tro):
     if "3mr" in heuristic:
         rel = sum(1 for c in cols if " AND_REL " in c)
         m = n - rel
-        base = m * (m + 1) // 2 + rel
-    elif tro == "True":
-        base = n
-    else:
-        base = n * (n + 1) // 2
-    return base + (0 if tro == "True" else n - 1)
+        return m * (m + 1) // 2 + rel + (0 if tro == "True" else rel)
+    if tro == "True":
+        return n
+    return n * (n + 1) // 2
 
 
 def gen_case(rng, tier):
@@ -322,6 +355,7 @@ def family_cases(rng, tier):
     out = [gen_combine_case(rng, 2, False), gen_combine_case(rng, 3, False), gen_combine_case(rng, 2, True),
            gen_combine_case(rng, 2, False)]
     out += [gen_long_case(rng) for _ in range(24 if tier == "quick" else 150)]
+    out += [gen_ref_case(rng) for _ in range(24 if tier == "quick" else 200)]
     for k in ([1, 2, 2, 3, 3, 8] if tier == "quick" else [1, 2, 3, 8] * 6):
         out.append(gen_pool_case(rng, k))
     out += [gen_pool_case(rng, 2, "pathos"), gen_pool_case(rng, 3, "pathos")]     # >= 4 s each: the code polls with time.sleep(4)
@@ -365,9 +399,10 @@ def load_corpus(pid):
 # evaluation of cases: implementation, then the checker in Coq
 
 def _case_term(c):
-    return "(mkCase %s %s %s %s (%s)%%Z %d%%nat)" % (
+    ref = "None" if c.get("ref") is None else "(Some %s)" % vlib.strlist(c["ref"])
+    return "(mkCase %s %s %s %s (%s)%%Z %d%%nat %s)" % (
         vlib.strlist(c["cols"]), vlib.strlit(c["heuristic"]), vlib.strlit(c["tro"]), vlib.strlit(c["label"]),
-        vlib.zlit(c["cap"]), int(c["batches"]))
+        vlib.zlit(c["cap"]), int(c["batches"]), ref)
 
 
 def _expr(c, r):
@@ -457,6 +492,17 @@ def _ukey(a, b):
     return (a, b) if a <= b else (b, a)
 
 
+PRIOR_HEURISTICS = ("surrogate-SGD", "surrogate-SVM", "surrogate-SGD-RP")     # mirror only; the model's list is held to the source
+
+
+def _ref_filtered(c, cands):
+    """Python mirror of the model's ref_filter (the authoritative one runs in Coq)."""
+    if c.get("ref") is None or c["heuristic"] not in PRIOR_HEURISTICS:
+        return cands
+    refs = {" AND ".join(sorted(item.split(","))) for item in c["ref"]}
+    return [p for p in cands if p[0] not in refs and p[1] not in refs]
+
+
 def precheck(c, r):
     """Python mirror of the row clauses (closed / count / mirrored with identical scores / multiplicities), used to find a
     concrete failing batch cheaply and to keep pathological outputs away from Coq.  Returns None or (batch, clause).
@@ -471,16 +517,18 @@ def precheck(c, r):
     cols = set(c["cols"])
     const = c["heuristic"] == "Constant"
     mult = 1 if const else 2
-    ucands = Counter(_ukey(a, b) for a, b in r["cands"])
+    fc = _ref_filtered(c, r["cands"])
+    ucands = Counter(_ukey(a, b) for a, b in fc)
     for bi, b in enumerate(r["batches"]):
-        n = _slice_len(len(r["cands"]), b["cap_after"])
+        n = _slice_len(len(fc), b["cap_after"])
         rows = b["rows"]
         for a, b_, s in rows:
             if a not in cols or b_ not in cols:
                 return (bi, "row (%r, %r) mentions a name that is not a column of this batch's frame" % (a, b_))
         if b["nrows"] != mult * n:
-            return (bi, "the batch returns %d rows; %d x len(candidates[:cap]) = %d expected (|candidates| = %d, cap = %d)"
-                    % (b["nrows"], mult, mult * n, len(r["cands"]), b["cap_after"]))
+            return (bi, "the batch returns %d rows; %d x len(candidates[:cap]) = %d expected (|candidates| = %d%s, cap = %d)"
+                    % (b["nrows"], mult, mult * n, len(fc),
+                       " after dropping pairs that touch a reference-model feature" if len(fc) != len(r["cands"]) else "", b["cap_after"]))
         cnt = Counter((a, b_, s) for a, b_, s in rows)
         if const:
             for (a, b_, s) in cnt:
@@ -508,6 +556,39 @@ def _coq_sized(c, r):
     if len(r["cands"]) > n_cols * (n_cols + 1) + 2 * n_cols + 8:
         return False
     return all((not b.get("truncated")) and b["nrows"] <= 2 * len(r["cands"]) + 8 for b in r["batches"])
+
+
+def gen_ref_case(rng):
+    """Reference-model cases: prior heuristics (the filter is active) and others (it is not), reference features that are columns,
+    'b,a' lists naming an ' AND ' column, absent names, sometimes the label."""
+    n = rng.randint(2, 12)
+    base = ["r%d%s" % (i, _simple(rng)) for i in range(n)]
+    cols = list(base)
+    for _ in range(rng.randint(0, 4)):
+        k = rng.sample(base, min(len(base), rng.randint(2, 3)))
+        nm = " AND ".join(sorted(k) if rng.random() < 0.7 else k)
+        if nm not in cols:
+            cols.append(nm)
+    rng.shuffle(cols)
+    label = rng.choice(base)
+    ref = []
+    for _ in range(rng.randint(0, 5)):
+        k = rng.random()
+        if k < 0.4:
+            ref.append(rng.choice(cols))
+        elif k < 0.75:
+            ref.append(",".join(rng.sample(base, min(len(base), rng.randint(2, 3)))))
+        elif k < 0.9:
+            ref.append(_simple(rng) + rng.choice(["", ",", ",x"]))
+        else:
+            ref.append(label)
+    ref = list(dict.fromkeys(ref))
+    heuristic = rng.choice(["surrogate-SGD", "surrogate-SGD", "surrogate-SVM", "surrogate-SGD-RP", "surrogate-LR",
+                            "surrogate-SGD-SVD", "max-value-coverage", "Constant"])
+    tro = rng.choice(["True", "False", "False"])
+    m = approx_ncands(cols, label, heuristic, tro)
+    return {"cols": cols, "label": label, "heuristic": heuristic, "tro": tro, "cap": rng.choice([10 ** 6, m, rng.randint(0, m + 3)]),
+            "batches": rng.choice([1, 1, 2]), "nrows": rng.randint(4, 20), "data_seed": rng.randint(0, 10 ** 6), "ref": ref}
 
 
 PRECHECK_OBLIGATION = ("rows of the batch against the candidate list and cap (Python mirror of rows_okb: closed, count, mirrored with "
@@ -704,13 +785,17 @@ def check(run, replay):
     if not ok:
         raise vlib.Broken("build:Pipeline/Combos.vo", log)
     vlib.standard_proof_phase(run, ["Props/C06.vo"], "Outrank.Props.C06", THEOREMS)
+    ok2, log2 = vlib.build(["Pipeline/CombosShared.vo"])     # informational (audit L8): depends on other builders' Pool.v / Interact.v
+    run.oblige("build:Pipeline/CombosShared.vo (mirror / slice length agree with Pool.v, Interact.v, Sampler.v)", ok2, "" if ok2 else log2[-800:])
 
     # translator-checked constants: the source's literals against the model's
     try:
         k = extract_source_constants()
-        mv = vlib.coq_eval("C06k", HEADER, ["(max_features_3mr, s_3mr, s_True, s_Constant, s_and_rel)"])[0]
+        mv = vlib.coq_eval("C06k", HEADER, ["(max_features_3mr, s_3mr, s_True, s_Constant, s_and_rel, prior_heurs, s_join_and, [c_comma])"])[0]
         model_k = {"max_features": mv[0], "s_3mr": vlib.from_codes(mv[1]), "s_true": vlib.from_codes(mv[2]),
-                   "s_constant": vlib.from_codes(mv[3]), "s_and_rel": vlib.from_codes(mv[4])}
+                   "s_constant": vlib.from_codes(mv[3]), "s_and_rel": vlib.from_codes(mv[4]),
+                   "prior_heuristics": sorted(vlib.from_codes(x) for x in mv[5]), "join": vlib.from_codes(mv[6]),
+                   "split": vlib.from_codes(mv[7])}
         same = model_k == k
         run.oblige("translator:constants and mode tests of core_ranking.py = model constants", same,
                    "" if same else "source %r model %r" % (k, model_k))
@@ -765,6 +850,10 @@ def check(run, replay):
         hist["max_name_length"][lb] = hist["max_name_length"].get(lb, 0) + 1
         if c.get("combine"):
             hist["frames_built_by_real_compute_combined_features"] += 1
+        if c.get("ref") is not None:
+            k_ = "reference model, filter active" if c["heuristic"] in PRIOR_HEURISTICS else "reference model, non-prior heuristic"
+            hist["reference"] = hist.get("reference", {})
+            hist["reference"][k_] = hist["reference"].get(k_, 0) + 1
         if o["ncands"] is not None and 0 < c["cap"] < o["ncands"]:
             hist["cap_binding"] += 1
         if c["cap"] <= 0:
@@ -808,7 +897,8 @@ def check(run, replay):
                    for c in cases[10:13]]
     run.assumptions += [
         "column lists are duplicate-free and contain the label (pandas frames with duplicated names are outside the property)",
-        "args.reference_model_JSON == '' (is_prior_heuristic false): the reference-model filter between enumeration and cap is not modelled",
+        "reference-model cases run with the scorer replaced by a deterministic orientation-dependent stand-in (harness-side patch of "
+        "core_ranking.get_importances_estimate_pairwise); the reference JSON's 'features' list is what the harness wrote",
         "module globals (GLOBAL_PRIOR_COMB_COUNTS, ...) are reset by the harness between cases; batches of one case share them",
         "scores are abstracted to ids of their IEEE-754 bit pattern (0.0 -> 0): only equality of scores matters to C06",
         "score values themselves are C05's business; any scorer answers are admitted by valid_batch",
